@@ -235,6 +235,17 @@ def run(case, tape=None):
         for nxt in walk[1:]:
             grid.setLayout(nxt)
             check_accessors(grid, G, eta, case, rank)
+        if len(walk) > 1:
+            # the accessors must also follow the layout through save / layout change / restore
+            g3 = Grid(eta, [], h, walk[0], comm, dtype=cm.np_dtype(case['dtype']), allocateSaveMemory=True)
+            g3.getAllData()[:] = cm.local(G, h.getLayout(walk[0]))
+            g3.saveGridValues()
+            g3.setLayout(walk[1])
+            check_accessors(g3, G, eta, case, rank)
+            g3.restoreGridValues()
+            check_accessors(g3, G, eta, case, rank)
+            g3.setLayout(walk[-1])
+            check_accessors(g3, G, eta, case, rank)
         if case.get('swapper_grid') and len(case['nprocs']) == 2 and ndim >= 3:
             # the same accessors on a Grid whose layouts live in several differently distributed groups
             from pygyro.model.layout import LayoutSwapper
